@@ -36,6 +36,8 @@ SIG_F2 = ("C10:F2 BalancingLearner.remove_unfinished does not invalidate the los
           "loss(real=True) afterwards although every child reports equal losses")
 SIG_F23 = ("C10:F23 AverageLearner1D.tell_many with several samples at one abscissa (tell_many_at_point) leaves the told "
            "(seed, x) in pending_points")
+SIG_F6 = ("C10:F6 Learner2D.remove_unfinished leaves the combined interpolator (_ip_combined) stale: loss(real=False) != "
+          "loss(real=True) after a discard")
 SIG_F21 = ("C10:F21 AverageLearner1D.tell_many_at_point re-tells: a known seed is overwritten and counted again "
            "(tell ignores it; nsamples exceeds the number of distinct samples)")
 
@@ -169,8 +171,8 @@ class Oracle:
     def check_retell(self, op, before, after, same_value):
         ad, name = self.ad, G.spec_name(self.spec)
         d = G.diff_snap(before, after)
-        if self.spec["kind"] == "Bal":
-            d = [k for k in d if k not in ("loss_real", "loss_exp")]      # cached; the children's own losses are compared
+        if self.spec["kind"] == "Bal" or G.base_kind(self.spec) == "L2D":
+            d = [k for k in d if k not in ("loss_real", "loss_exp")]      # cached; the freshly computed losses are compared
         if not d:
             return
         if self.spec["kind"] == "DS" and d == ["extras"] and ad.keeps_first and not same_value:
@@ -196,6 +198,9 @@ class Oracle:
         if lr != le and self.spec["kind"] == "Bal" and after["fresh_real"] == after["fresh_exp"]:
             self.err(SIG_F2, f"{name}: after remove_unfinished loss(real=False) = {G.short(le)} but loss(real=True) = {G.short(lr)}; "
                              f"the children all report {G.short(after['fresh_exp'])}")
+        elif lr != le and G.base_kind(self.spec) == "L2D" and after.get("fresh_exp") == after.get("fresh_real"):
+            self.err(SIG_F6, f"{name}: after remove_unfinished loss(real=False) = {G.short(le)} but loss(real=True) = {G.short(lr)} "
+                             f"(equal once _ip_combined is rebuilt)")
         elif lr != le:
             self.err(sig(self.spec, "discard-loss"),
                      f"{name}: after remove_unfinished loss(real=False) = {G.short(le)} but loss(real=True) = {G.short(lr)}")
@@ -223,7 +228,7 @@ def run_case(args):
     orc = Oracle(ad, spec)
     H, handed = [], []
     stats = {"retell_same": 0, "retell_alt": 0, "unsolicited": 0, "discard_with_pending": 0, "batch": 0}
-    snap = G.snapshot(ad, l)
+    snap = G.snapshot(ad, l, fresh=True)
     script = G.directed_ops(ad, l, rng) if directed else None
     out = None
     for _ in range(nops):
@@ -277,7 +282,7 @@ def run_case(args):
         elif op[0] == "remove_unfinished":
             stats["discard_with_pending"] += bool(orc.pending)
             orc.note_discard()
-        snap = G.snapshot(ad, l)
+        snap = G.snapshot(ad, l, fresh=True)
         orc.check_state(l, op, snap)
         if retell is not None and (retell or ad.keeps_first):
             orc.check_retell(op, before, snap, retell)
@@ -296,7 +301,7 @@ def replay_case(spec, ops):
     ad = G.adapter(spec)
     l = ad.make()
     orc = Oracle(ad, spec)
-    snap = G.snapshot(ad, l)
+    snap = G.snapshot(ad, l, fresh=True)
     for i, op in enumerate(ops):
         before = snap
         known_before = {ad.key(ad.point(p)) for p in G.known_points(ad, l)} if op[0] in ("tell", "tell_many") else set()
@@ -326,7 +331,7 @@ def replay_case(spec, ops):
             orc.note_tell_pending(op[1])
         elif op[0] == "remove_unfinished":
             orc.note_discard()
-        snap = G.snapshot(ad, l)
+        snap = G.snapshot(ad, l, fresh=True)
         orc.check_state(l, op, snap)
         if retell is not None and (retell or ad.keeps_first):
             orc.check_retell(op, before, snap, retell)
